@@ -734,7 +734,7 @@ def make_case(rng, tid, *, groups=("core",), AND=None, max_rows=8, modes=False):
         flags = ["raise", "collect", "stop", "fail", "print", "quiet"]
         pol = [f for f in flags if rng.random() < 0.45] or [rng.choice(flags)]
         cfg["policy"] = pol
-        cfg["vm"] = {f: rng.random() < 0.5 for f in ("raise", "stop", "fail", "print") if rng.random() < 0.2}
+        cfg["vm"] = {f: rng.random() < 0.5 for f in ("raise", "stop", "fail", "print", "match") if rng.random() < 0.2}
     if modes:
         cfg["noMatches"] = rng.random() < 0.5
         cfg["keepUnmatched"] = rng.random() < 0.6
